@@ -356,7 +356,7 @@ class Mods:
             raise AttributeError(name)
 
 
-def load(*, fake_skia=True, lex_placeholders=True, modules=MODULE_ORDER, extra_ast=None, merge_tuple_cmp=True):
+def load(*, fake_skia=True, lex_placeholders=True, modules=MODULE_ORDER, extra_ast=None, merge_tuple_cmp=True, extra_builtins=None):
     n = next(_load_counter)
     prefix = f"sxload{n}"
     mods = Mods(prefix)
@@ -411,6 +411,9 @@ def load(*, fake_skia=True, lex_placeholders=True, modules=MODULE_ORDER, extra_a
             "__import__": sx_import,
         }
     )
+    if extra_builtins:
+        bdict.update(extra_builtins)
+        mods.stubs.append("builtins also replaced: " + ", ".join(sorted(extra_builtins)))
 
     def _load_one(name):
         path = os.path.join(SRC, name + ".py")
